@@ -1,26 +1,33 @@
 #!/bin/bash
-# usage: tools/seed_sweep.sh <glob under seeded/> — re-runs every matching seed against its own property's quick check
-# (and records the outcome in meta.json under "final"); /repo is patched and restored for each seed
-cd /verif
-for d in seeded/$1; do
-  NAME=$(basename $d)
-  P=$(echo $NAME | cut -c1-3)
-  [ -f $d/patch.diff ] || continue
-  git -C /repo apply /verif/$d/patch.diff 2>/dev/null || { echo "$NAME patch-does-not-apply"; continue; }
-  /venv/bin/python harness/check.py $P --tier quick > /tmp/sweep_$NAME.out 2>&1; rc=$?
-  git -C /repo checkout -- .
-  V=$(grep -E '^VIOLATION' /tmp/sweep_$NAME.out | head -1)
-  T=$(grep -E '^violation tags' /tmp/sweep_$NAME.out | cut -c1-300)
-  echo "$NAME $P exit=$rc $V"
-  python3 - "$d/meta.json" "$P" "$rc" "$V" "$T" <<'PY'
-import json, sys
-path, prop, rc, v, t = sys.argv[1:6]
-try:
-    m = json.load(open(path))
-except Exception:
-    m = {}
-m["final"] = {"check": prop, "exit": int(rc), "violation_line": v, "tags": t}
-json.dump(m, open(path, "w"), indent=1)
-PY
-done
-git -C /verif checkout -- evidence 2>/dev/null
+# usage: tools/seed_sweep.sh [out-dir] [name-glob]  — every seeded change against the current /repo HEAD and the current /verif:
+# patch applied to a scratch worktree, the property's own quick check run against it (VERIF_REPO); when that check does
+# not report a violation, the other checks that caught the seed before (meta.json) are tried.  Prints one line per seed.
+OUT=${1:-/tmp/sweep}; GLOB=${2:-*}
+mkdir -p $OUT
+cd /verif/seeded
+one() {
+  d=$1
+  [ -f $d/patch.diff ] || return
+  case $d in neutralised-*) return;; esac
+  prop=$(python3 -c "import json;print(json.load(open('$d/meta.json'))['property'])" 2>/dev/null || echo ${d:0:3})
+  others=$(python3 -c "
+import json,re
+m=json.load(open('$d/meta.json'))
+s=str(m.get('checks_run_quick',''))+' '+str(m.get('caught_by',''))
+print(' '.join(sorted(set(re.findall(r'C\d\d', s))-{'$prop'})))" 2>/dev/null)
+  S=$(mktemp -d /tmp/sweepwt.XXXX)
+  git -C /repo worktree add -q --detach $S HEAD
+  if ! git -C $S apply /verif/seeded/$d/patch.diff 2>/dev/null; then echo "$d NOAPPLY"; git -C /repo worktree remove --force $S; return; fi
+  res=""
+  for c in $prop $others; do
+    E=$(mktemp -d /tmp/sweepev.XXXX)
+    ( cd /verif && VERIF_REPO=$S VERIF_EVIDENCE_DIR=$E VERIF_REPLAYS_DIR=$E/replays timeout 900 /venv/bin/python harness/check.py $c --tier quick > $OUT/$d.$c.out 2>&1 ); rc=$?
+    rm -rf $E
+    res="$res $c=$rc"
+    [ $rc -eq 1 ] && break
+  done
+  git -C /repo worktree remove --force $S
+  echo "$d$res"
+}
+export -f one; export OUT
+ls -d $GLOB | xargs -P 3 -I{} bash -c 'one {}'
